@@ -332,10 +332,16 @@ def run(ctx):
     ctx.clause = ("string_begins_with / string_ends_with answer according to the definition in every world they decide "
                   "without comparing contents and agree with each other; split_string trims the fields it returns on both "
                   "sides; every condition of decl_names_equal is invariant under exchanging its arguments")
-    ctx.rules = ["R-AFFIXTAB", "R-TRIMBOTH", "R-NAMESYM"]
+    ctx.rules = ["R-AFFIXTAB", "R-TRIMBOTH", "R-NAMESYM", "R-ALIASARG"]
     P = ctx.program(UNITS)
     check_affixtab(ctx, P)
     check_trimboth(ctx, P)
     check_namesym(ctx, P)
+    # the path / string helpers are called in place (string_suffix(str, p, str), base_name(p, p), real_path(p, p) ...):
+    # at those call sites "behaves as specified" needs the helper not to read its input after touching its output
+    from rules import alias_rule
+    PW = ctx.program(None)
+    na = alias_rule.check(ctx, PW, PW.all_funcs())
+    ctx.floor("R-ALIASARG", "helpers called with one string as input and output", na, 4)
     ctx.assume("the content comparisons themselves (std::string::compare) and the `::` scanning arithmetic of "
                "decl_names_equal are value-level behaviour and are not decided")
